@@ -20,6 +20,7 @@ struct Walker {
     groups: Vec<(String, syn::Expr)>, // (arm, group level)
     optables: BTreeMap<String, Vec<(String, String, String)>>, // arm -> (variant, spelling, PREC)
     lets: BTreeMap<String, BTreeMap<String, syn::Expr>>, // arm -> local -> init
+    prints: Vec<(String, syn::Expr)>, // (arm, argument of self.p(..))
     func: String,
     arm: String,
 }
@@ -151,6 +152,9 @@ impl Walker {
             }
             syn::Expr::Let(l) => self.expr(&l.expr),
             syn::Expr::MethodCall(mc) => {
+                if mc.method == "p" && sm::tsc(&mc.receiver) == "self" && mc.args.len() == 1 {
+                    self.prints.push((self.arm.clone(), mc.args[0].clone()));
+                }
                 if mc.method == "unparse_expr" && sm::tsc(&mc.receiver) == "self" && mc.args.len() == 2 {
                     self.sites.push(Site { func: self.func.clone(), arm: self.arm.clone(), child: sm::tsc(&mc.args[0]), level: Some(mc.args[1].clone()), line: sm::line(mc.method.span()) });
                 }
@@ -301,7 +305,7 @@ pub fn run(cx: &mut Ctx) {
     }
 
     // ---- walk the unparser
-    let mut w = Walker { sites: vec![], groups: vec![], optables: BTreeMap::new(), lets: BTreeMap::new(), func: String::new(), arm: String::new() };
+    let mut w = Walker { sites: vec![], groups: vec![], optables: BTreeMap::new(), lets: BTreeMap::new(), prints: vec![], func: String::new(), arm: String::new() };
     let skip_fns: BTreeSet<&str> = ["unparse_formatted", "unparse_fstring_body", "unparse_fstring_elem", "unparse_fstring_str", "unparse_joined_str", "unparse_python_arguments", "new", "p", "p_id", "p_if", "p_delim", "write_fmt"].into_iter().collect();
     let mut arms_seen: Vec<String> = vec![];
     let mut wildcard = false;
@@ -532,4 +536,172 @@ pub fn run(cx: &mut Ctx) {
         cx.fail("C11.P2", "C11.P2/display-level", &up.rel, "Display for Expr does not render at precedence::TEST");
     }
     let _ = Src::loc::<syn::Expr>;
+    lexical_rules(cx, &up, &w);
+}
+
+/// C11.K1 / F1 / F2: the rendering is re-lexed into the tokens that were meant.
+fn lexical_rules(cx: &mut Ctx, up: &Src, w: &Walker) {
+    let rule = "C11.K1";
+    cx.rule(rule, "word tokens stay separate: (a) the only string pieces the unparser writes that END in an identifier character are the reviewed ones — `lambda` (guarded, see b), the `f` string prefix (followed by a quote), the infinity stand-in `1e309` (a whole expression), and the word operators `and`/`or`, which op_prec!(bin ..) pads with a blank on both sides; every other keyword piece ends in a blank or a delimiter; (b) interpreted over parameter-list shapes, `lambda` is written with its trailing blank whenever the parameter list starts with a name (positional-only or positional parameters present); (c) the pieces that START with a letter are the expression-prefix words (`lambda`, `await `, `not `, `f`, `and`/`or` inside the padding macro) — all other word pieces start with a blank or `(`");
+    cx.floor(rule, 12);
+    // (a)/(c) string literals of the Unparser impl, through macros
+    let mut toks = vec![];
+    for i in up.impls() {
+        if sm::self_ty_name(i) == "Unparser" {
+            sm::flat_tokens(quote::ToTokens::to_token_stream(i), &mut toks);
+        }
+    }
+    let mut lits: BTreeSet<String> = BTreeSet::new();
+    for t in &toks {
+        if t.starts_with('"') && t.ends_with('"') && t.len() >= 2 {
+            if let Ok(l) = syn::parse_str::<syn::LitStr>(t) {
+                // format strings: split at `{}` placeholders
+                for piece in l.value().split("{}") {
+                    if !piece.is_empty() {
+                        lits.insert(piece.to_string());
+                    }
+                }
+            }
+        }
+    }
+    if lits.len() < 20 {
+        cx.fail(rule, &format!("{}/anchors", rule), &up.rel, &format!("only {} string pieces found in impl Unparser", lits.len()));
+    }
+    let ident_ch = |c: char| c.is_alphanumeric() || c == '_';
+    let end_ok: BTreeSet<&str> = ["lambda", "f", "1e309", "and", "or", "inf"].into_iter().collect();
+    let start_ok: BTreeSet<&str> = ["lambda", "lambda ", "await ", "not ", "f", "and", "or", "inf"].into_iter().collect();
+    for l in &lits {
+        let last = l.chars().last().unwrap();
+        let first = l.chars().next().unwrap();
+        if ident_ch(last) {
+            if end_ok.contains(l.as_str()) {
+                cx.ok(rule, &format!("piece {:?} ends in an identifier character (reviewed)", l));
+            } else {
+                cx.fail(rule, &format!("{}/glue-after/{}", rule, l), &up.rel, &format!("the unparser writes {:?}, which ends in an identifier character: the next name, number or keyword is glued to it", l));
+            }
+        } else if first.is_alphabetic() {
+            if start_ok.contains(l.as_str()) {
+                cx.ok(rule, &format!("piece {:?} starts an expression (reviewed prefix word)", l));
+            } else {
+                cx.fail(rule, &format!("{}/glue-before/{}", rule, l), &up.rel, &format!("the unparser writes {:?}, which starts with a letter and is not an expression-prefix word: it is glued to a preceding name or number", l));
+            }
+        } else {
+            cx.ok_trivial(rule);
+        }
+    }
+    // op_prec! padding
+    let all = sm::tsc(&up.file);
+    if all.contains("(@spacebin,$op:literal)=>{concat!(\" \",$op,\" \")};") {
+        cx.ok(rule, "op_prec!(bin ..) pads the operator with a blank on both sides");
+    } else {
+        cx.fail(rule, &format!("{}/bin-padding", rule), &up.rel, "op_prec!(@space bin, op) is not concat!(\" \", op, \" \")");
+    }
+    // (b) the lambda keyword, interpreted
+    let lam: Vec<&syn::Expr> = w.prints.iter().filter(|(a, e)| a == "Lambda" && sm::tsc(e).contains("\"lambda")).map(|(_, e)| e).collect();
+    if lam.len() != 1 {
+        cx.fail(rule, &format!("{}/lambda/site", rule), &up.rel, &format!("{} writes of the lambda keyword found in the Lambda arm (1 expected)", lam.len()));
+    } else {
+        let methods = |recv: &crate::eval::V, name: &str, _args: &[crate::eval::V]| -> Option<crate::eval::V> {
+            match (recv, name) {
+                (crate::eval::V::Int(n), "len") => Some(crate::eval::V::Int(*n)),
+                (crate::eval::V::Int(n), "is_empty") => Some(crate::eval::V::Bool(*n == 0)),
+                (crate::eval::V::Opt(o), "is_some") => Some(crate::eval::V::Bool(o.is_some())),
+                (crate::eval::V::Opt(o), "is_none") => Some(crate::eval::V::Bool(o.is_none())),
+                _ => None,
+            }
+        };
+        let empty = BTreeMap::new();
+        let lets = w.lets.get("Lambda").unwrap_or(&empty);
+        let mut bad = vec![];
+        let mut n = 0;
+        for a in 0..3i128 {
+            for po in 0..3i128 {
+                for rest in 0..2i128 {
+                    let mut m = crate::eval::Machine::new(&methods);
+                    m.set("args.args", crate::eval::V::Int(a));
+                    m.set("args.posonlyargs", crate::eval::V::Int(po));
+                    m.set("args.kwonlyargs", crate::eval::V::Int(rest));
+                    m.set("args.vararg", crate::eval::V::Opt(if rest > 0 { Some(Box::new(crate::eval::V::Unit)) } else { None }));
+                    m.set("args.kwarg", crate::eval::V::Opt(None));
+                    // locals of the arm, in dependency-free order (each depends only on args.*)
+                    for (k, init) in lets {
+                        if let Ok(v) = m.eval(init) {
+                            m.set(k, v);
+                        }
+                    }
+                    n += 1;
+                    match m.eval(lam[0]) {
+                        Ok(crate::eval::V::Str(sv)) => {
+                            let names_first = a + po > 0;
+                            if !(sv == "lambda " || (sv == "lambda" && !names_first)) {
+                                bad.push(format!("{} positional-only, {} positional parameter(s): writes {:?}", po, a, sv));
+                            }
+                        }
+                        other => bad.push(format!("not interpretable: {:?}", other)),
+                    }
+                }
+            }
+        }
+        if bad.is_empty() {
+            cx.ok(rule, &format!("lambda keyword: {} parameter-list shapes interpreted, a blank follows whenever a name comes first", n));
+        } else {
+            cx.fail(rule, &format!("{}/lambda/separator", rule), &up.rel, &format!("the lambda keyword is glued to the first parameter name: {}", bad.iter().take(3).cloned().collect::<Vec<_>>().join("; ")));
+        }
+    }
+
+    // F1 / F2
+    let rule = "C11.F1";
+    cx.rule(rule, "f-string replacement fields: the opening brace is followed by a blank exactly when the RENDERED text of the field expression starts with `{` (the test is on the same buffer that is written next, not on the node kind: `{ {1}.pop() }` starts with a brace without being a set), and literal text doubles both `{` and `}`");
+    cx.floor(rule, 3);
+    let Some(uf) = up.method("Unparser", "unparse_formatted") else { return cx.anchor_missing(rule, "unparse_formatted") };
+    // let brace = if COND { "{ " } else { "{" };  self.p(brace)?; self.p(&BUF)?;
+    let mut cond: Option<String> = None;
+    let mut var = String::new();
+    for st in &uf.block.stmts {
+        if let syn::Stmt::Local(l) = st {
+            if let Some(init) = &l.init {
+                if let syn::Expr::If(i) = &*init.expr {
+                    let th = sm::tsc(&i.then_branch);
+                    let el = i.else_branch.as_ref().map(|e| sm::tsc(&e.1)).unwrap_or_default();
+                    if th == "{\"{ \"}" && el == "{\"{\"}" {
+                        cond = Some(sm::tsc(&i.cond));
+                        let mut ids = vec![];
+                        sm::pat_idents(&l.pat, &mut ids);
+                        var = ids.first().cloned().unwrap_or_default();
+                    }
+                }
+            }
+        }
+    }
+    let body = sm::tsc(&uf.block);
+    match cond {
+        None => cx.fail(rule, &format!("{}/opening/shape", rule), &up.loc(uf), "the choice between `{ ` and `{` is not a `let x = if c { \"{ \" } else { \"{\" }`"),
+        Some(c) => {
+            // the buffer printed right after the brace
+            let after = format!("self.p({})?;self.p(&", var);
+            let buf: String = body.split(&after).nth(1).map(|r| r.chars().take_while(|ch| ch.is_alphanumeric() || *ch == '_').collect()).unwrap_or_default();
+            let forms = [format!("{}.starts_with('{{')", buf), format!("{}.starts_with(\"{{\")", buf), format!("{}.chars().next()==Some('{{')", buf), format!("{}.as_bytes().first()==Some(&b'{{')", buf)];
+            if !buf.is_empty() && forms.contains(&c) {
+                cx.ok(rule, &format!("the blank after the opening brace is decided by `{}` on the buffer `{}` that is written next", c, buf));
+            } else {
+                cx.fail(rule, &format!("{}/opening/test", rule), &up.loc(uf), &format!("the blank after the opening brace is decided by `{}`, not by whether the rendered field text `{}` starts with a brace: a field whose text starts with `{{` is written as the `{{{{` escape", c, buf));
+            }
+        }
+    }
+    if body.ends_with("self.p(\"}\")?;Ok(())}") {
+        cx.ok(rule, "the field is closed with `}`");
+    } else {
+        cx.fail(rule, &format!("{}/closing", rule), &up.loc(uf), "the replacement field is not closed with a single `}` at the end");
+    }
+    match up.method("Unparser", "unparse_fstring_str") {
+        None => cx.anchor_missing(rule, "unparse_fstring_str"),
+        Some(f) => {
+            let t = sm::tsc(&f.block);
+            if t.contains(".replace('{',\"{{\")") && t.contains(".replace('}',\"}}\")") {
+                cx.ok(rule, "literal text doubles `{` and `}`");
+            } else {
+                cx.fail(rule, &format!("{}/escaping", rule), &up.loc(f), "literal f-string text does not double both `{` and `}`");
+            }
+        }
+    }
 }
